@@ -200,7 +200,7 @@ func family(c hcase, val string) string {
 		return "nul"
 	case c.Vector == "form-key" && !strings.HasPrefix(val, "/"):
 		return "no-leading-slash"
-	case strings.Contains(val, ".uploads"):
+	case strings.Contains(strings.NewReplacer("%2e", ".", "%2E", ".").Replace(val), ".uploads"):
 		return "uploads-internal"
 	case strings.HasPrefix(val, "/") || strings.Contains(val, "//") || strings.HasPrefix(low, "%2f"):
 		return "empty-segment"
@@ -777,6 +777,10 @@ func main() {
 	}
 	r.Note("cases_planned", len(cases))
 	for _, cse := range cases {
+		if cse.Vector == "key" && strings.Trim(w.subst(cse.Tmpl), "/") == "" {
+			r.Count("skipped_empty_key_is_a_bucket_request", 1) // DELETE /B/ is DeleteBucket: not an object key
+			continue
+		}
 		w.run(cse)
 		if r.Violations() > 300 {
 			break
